@@ -27,6 +27,7 @@ RULE = ('Hypothesis generates opacity tables (2..200 rows, strictly increasing w
 RULE += (' ' + 'Also varied: tables that start or end exactly at 0.55 micron, table wavelengths typed in their unit with a plain decimal factor (not converted by astropy), scalar queries, wavelengths re-assigned on a queried law.')
 RULE += (' ' + 'The table is edited in place after from_table / to_table; the same numbers are asked for in mm / nm right after another unit.')
 RULE += (' ' + 'from_file is called with keyword arguments, with positional arguments in the documented order, or with the documented defaults left out.')
+RULE += (' ' + 'The queries are also handed over as whole numbers (integer dtype) of the query unit.')
 ASSUMPTIONS = [
     'tolerance 1e-12 relative (unit conversions round to ~1e-16); exactly -0.4 at 0.55 micron within 1e-12',
     'a query on an END node expressed in a different unit than the table may round to either side of the boundary: '
@@ -162,6 +163,18 @@ def run_case(case, ctx):
         vo = base.get_av(np.array(out) * u.micron)
     if any(float(x) != 0. for x in vo):
         fail('outside the table (at %r micron) the pattern is %r, not 0' % (out, list(vo)), 'c14:outside_not_zero')
+    # queries typed as whole numbers of the query unit (the integer wavelength column of a table): the answer is the law at
+    # the wavelengths those numbers state, in double precision. (Single-precision queries are not examined: astropy converts
+    # their unit in single precision, which moves the wavelength by up to 6e-8 and the answer by as much times the local
+    # slope - no sharper statement can be decided.)
+    fac = PLAIN[case['query_unit']]
+    vals = np.array([max(1, int(round(min(q * fac, 1e15)))) for q in qs])
+    q_um = [float(v) / fac for v in vals]
+    with must_succeed('get_av with an integer-typed query'):
+        got_t = base.get_av(u.Quantity(vals, unit(case['query_unit']), dtype=vals.dtype))
+    check_values(got_t, of.extinction_pattern(wav, chi, q_um), q_um, ends, False,
+                 'table in micron, queries typed %s in %s' % (vals.dtype, case['query_unit']), 'c14:typed_query', law)
+    labels.add('typed_queries')
     # scalar (0-d) queries: one wavelength at a time must give the same numbers as the array query
     for q, w in zip(qs, want):
         with must_succeed('get_av with a scalar Quantity'):
